@@ -63,7 +63,8 @@ META = dict(
           "formula(f, natural_density=d)), each derivation in two histories: operands read immediately before (all "
           "memoisable observables, on the operand objects themselves) and operands never read (rebuilt from the root).  "
           "A derivation is first run unread; the read history is skipped only if the unread one already violates.  The "
-          "derived formula and, again, the operand are judged before any merging of equal states.  In states that "
+          "derived formula and, again, the operand are judged before any merging of equal states.  The dict roots of a "
+          "composition all receive ONE caller-owned mapping object, which must come back unaltered.  In states that "
           "contain a derivation in their history the substitutions are restricted to sources that are present and "
           "portions {0.25, 1}.  Non-trivial = reached by at least one assignment "
           "of a new value or one substitution whose source is present with portion > 0.  Volumes: all 23 packing "
@@ -246,6 +247,7 @@ class Graph(object):
         self.pristine = {}          # root form -> a formula built once and never read
         self._tail = None
         self._calls = None
+        self._dict = self._dict_snap = None
 
     # ---- building
     def compound(self, how):
@@ -253,7 +255,13 @@ class Graph(object):
         if how == "str":
             return self.text
         if how == "dict":
-            return dict((E.atom[t], c) for t, c in self.comp0.items())
+            # ONE mapping object per composition, owned by the harness and passed to every dict root (all ways of
+            # giving the density, one after the other): it must come back unaltered, and a later call with other
+            # keyword values must not see anything of the earlier ones
+            if self._dict is None:
+                self._dict = dict((E.atom[t], c) for t, c in self.comp0.items())
+                self._dict_snap = [(id(a), c) for a, c in self._dict.items()]
+            return self._dict
         if how == "atom":
             return E.atom[self.entries[0][0]]
         raise MachineryError(how)
@@ -771,6 +779,10 @@ class Graph(object):
                 except Exception as e:
                     self.viol("construct:%s:raises" % form[0].replace("_", "-"), form, (), "a formula",
                               "%s: %s" % (type(e).__name__, e))
+                    return
+                if how == "dict" and [(id(a), c) for a, c in self._dict.items()] != self._dict_snap:
+                    self.viol("construct:%s:mapping-argument-changed" % form[0].replace("_", "-"), form, (),
+                              "the caller's mapping as it was passed in: %r" % (self._dict_snap,), repr(self._dict))
                     return
                 rule = ("default-density:" + ("one-atom" if len(R.nonzero(comp0)) == 1 else "several-atoms")
                         if form[0] == "none" else "construct:" + form[0].replace("_", "-"))
